@@ -96,13 +96,17 @@ fn parse_sched(s: &str) -> Option<Vec<usize>> {
 // ---------------------------------------------------------------------------------------------
 // the scheduler
 #[derive(Clone, Debug, PartialEq)]
-enum St { Running, AtStop { op: &'static str, addr: usize }, InWait { addr: usize, notified: bool }, Done }
+enum St { Running, AtStop { op: &'static str, addr: usize }, InWait { addr: usize, notified: bool },
+          /// forced mode only: released into a lock operation although the shadow state says the lock is held
+          Blocked { addr: usize, excl: bool }, Done }
 
 #[derive(Default)]
 struct Lk { writer: Option<usize>, readers: Vec<usize> }
 
 struct Sched {
     gen: u64,
+    /// forced mode (c13.force): lock operations are schedulable even while the lock is held
+    force: bool,
     frozen: bool,
     abort: bool,
     st: Vec<St>,
@@ -173,6 +177,10 @@ fn hook(name: &'static str, addr: usize) {
             else if let Some(i) = l.readers.iter().position(|x| *x == t) { l.readers.remove(i); }
             else { s.mismatch = Some(format!("unlock-not-held:{}", t)); }
             s.st[t] = St::Running;
+        } else if s.force && matches!(op, "lock" | "write" | "read") {
+            let excl = op != "read";
+            let busy = match s.locks.get(&addr) { None => false, Some(l) => l.writer.is_some() || (excl && !l.readers.is_empty()) };
+            s.st[t] = if busy { St::Blocked { addr, excl } } else { St::Running };
         } else {
             s.st[t] = St::Running;
         }
@@ -184,11 +192,13 @@ fn hook(name: &'static str, addr: usize) {
                 let l = s.locks.entry(addr).or_default();
                 if l.writer.is_some() || !l.readers.is_empty() { s.mismatch = Some(format!("exclusive-acquired-while-held:{}", t)); }
                 l.writer = Some(t);
+                if matches!(s.st[t], St::Blocked { .. }) { s.st[t] = St::Running; }
             }
             ("read", "post") => {
                 let l = s.locks.entry(addr).or_default();
                 if l.writer.is_some() { s.mismatch = Some(format!("read-acquired-while-written:{}", t)); }
                 l.readers.push(t);
+                if matches!(s.st[t], St::Blocked { .. }) { s.st[t] = St::Running; }
             }
             ("try_write", "fail") => {}
             ("unlock", "post") => {}
@@ -278,7 +288,7 @@ fn enabled_of(s: &Sched) -> Vec<usize> {
     for (t, st) in s.st.iter().enumerate() {
         if let St::AtStop { op, addr } = st {
             let free = |excl: bool| match s.locks.get(addr) { None => true, Some(l) => l.writer.is_none() && (!excl || l.readers.is_empty()) };
-            let ok = match *op { "lock" | "write" => free(true), "read" => free(false), _ => true };
+            let ok = s.force || match *op { "lock" | "write" => free(true), "read" => free(false), _ => true };
             if ok { v.push(t); }
         }
     }
@@ -290,13 +300,20 @@ fn settled(s: &Sched) -> bool {
     s.st.iter().all(|st| match st {
         St::Running => false,
         St::InWait { addr, notified: true } => s.locks.get(addr).map(|l| l.writer.is_some()).unwrap_or(false),
+        // a thread blocked inside a lock operation is at rest only while the lock is still held by someone else
+        St::Blocked { addr, excl } => s.locks.get(addr).map(|l| l.writer.is_some() || (*excl && !l.readers.is_empty())).unwrap_or(false),
         _ => true,
     })
 }
 
 /// Runs one program under one schedule on the real code. Self-contained: installs the hook, spawns, steers,
 /// tears the threads down, removes the hook.
-pub fn run(kind: &str, behs: &[Beh], progs: &[Vec<Op>], sched: &[usize]) -> RunResult {
+pub fn run(kind: &str, behs: &[Beh], progs: &[Vec<Op>], sched: &[usize]) -> RunResult { run_mode(kind, behs, progs, sched, false) }
+
+/// `force`: lock / write / read stops are schedulable while the lock is held (the thread then really blocks in
+/// the lock operation, or - if the code under test uses a try-lock there - takes its failure path); such runs
+/// have no model counterpart and are judged by the specification alone.
+pub fn run_mode(kind: &str, behs: &[Beh], progs: &[Vec<Op>], sched: &[usize], force: bool) -> RunResult {
     let _serial = RUN_LOCK.lock().unwrap_or_else(|e| e.into_inner());
     let n = progs.len();
     let gen = GEN.fetch_add(1, Ordering::SeqCst);
@@ -305,7 +322,7 @@ pub fn run(kind: &str, behs: &[Beh], progs: &[Vec<Op>], sched: &[usize]) -> RunR
         let mut tb = ctx.table.lock().unwrap();
         for (i, b) in behs.iter().enumerate() { tb.push(Some(Arc::new(Obs { id: i, beh: *b, ctx: Arc::downgrade(&ctx), count: AtomicU32::new(0) }))); }
     }
-    *sched_lock() = Some(Sched { gen, frozen: false, abort: false, st: vec![St::Running; n], grant: None, locks: HashMap::new(), hist: Vec::new(), pending: vec![None; n], mismatch: None });
+    *sched_lock() = Some(Sched { gen, force, frozen: false, abort: false, st: vec![St::Running; n], grant: None, locks: HashMap::new(), hist: Vec::new(), pending: vec![None; n], mismatch: None });
     install_hook(Some(hook));
     let mut handles = Vec::new();
     for (t, prog) in progs.iter().enumerate() {
@@ -436,6 +453,15 @@ pub fn exec(op: &str, a: &[&str]) -> Option<String> {
             }
             Some(run(a[0], &behs, &progs, &sched).outcome)
         }
+        "c13.force" => {
+            if rx_algo() == "nohooks" { return Some("nohooks".into()); }
+            let (Some(behs), Some(progs), Some(sched)) = (parse_obs(a[1]), parse_progs(a[2]), parse_sched(a[3])) else { return Some("bad-request".into()) };
+            if a[0] == "single" && behs.iter().enumerate().any(|(i, b)| matches!(b, Beh::CbSub(k) if *k <= i)) { return Some("bad-request".into()); }
+            if progs.len() > 10 { return Some("bad-request".into()); }
+            let key = format!("c13.force {} {} {} {}", a[0], a[1], a[2], a[3]);
+            if let Some(c) = CACHE.lock().unwrap().as_mut().and_then(|m| m.remove(&key)) { return Some(c); }
+            Some(run_mode(a[0], &behs, &progs, &sched, true).outcome)
+        }
         "c13.stress" => Some(stress(a[0], a[1].parse().unwrap(), a[2].parse().unwrap(), a[3].parse().unwrap())),
         _ => None,
     }
@@ -445,14 +471,16 @@ pub fn exec(op: &str, a: &[&str]) -> Option<String> {
 // generators
 
 /// every complete interleaving of a program, by stateless depth-first exploration of the real code
-fn all_interleavings(kind: &str, behs: &[Beh], progs: &[Vec<Op>], cap: usize, out: &mut Vec<String>) -> (usize, bool) {
+fn all_interleavings(kind: &str, behs: &[Beh], progs: &[Vec<Op>], cap: usize, out: &mut Vec<String>) -> (usize, bool) { all_interleavings_mode(kind, behs, progs, cap, out, false) }
+
+fn all_interleavings_mode(kind: &str, behs: &[Beh], progs: &[Vec<Op>], cap: usize, out: &mut Vec<String>, force: bool) -> (usize, bool) {
     let mut stack: Vec<Vec<usize>> = vec![vec![]];
     let mut n = 0usize;
     while let Some(prefix) = stack.pop() {
         if n >= cap { return (n, false); }
-        let r = run(kind, behs, progs, &prefix);
+        let r = run_mode(kind, behs, progs, &prefix, force);
         n += 1;
-        let req = format!("c13.run {} {} {} {}", kind, fmt_obs(behs), fmt_progs(progs), fmt_sched(&r.choices));
+        let req = format!("{} {} {} {} {}", if force { "c13.force" } else { "c13.run" }, kind, fmt_obs(behs), fmt_progs(progs), fmt_sched(&r.choices));
         CACHE.lock().unwrap().get_or_insert_with(HashMap::new).insert(req.clone(), r.outcome.clone());
         out.push(req);
         for i in (prefix.len()..r.choices.len()).rev() {
@@ -497,6 +525,15 @@ pub fn gen(tier: &str, rng: &mut Rng, out: &mut Vec<String>) {
         for (b, pr) in &two {
             if kind == "single" && b.iter().enumerate().any(|(i, x)| matches!(x, Beh::CbSub(k) if *k <= i)) { continue; }
             all_interleavings(kind, b, pr, cap, out);
+        }
+    }
+    // (a') the same programs in forced mode: a thread may be released INTO a held lock (it blocks for real, or takes
+    // the failure path if the code uses a try-lock there); judged by the specification alone (c13.judge)
+    let fcap = if thorough { 8_000 } else { 700 };
+    for kind in ["subject", "single"] {
+        for (b, pr) in &two {
+            if kind == "single" && b.iter().enumerate().any(|(i, x)| matches!(x, Beh::CbSub(k) if *k <= i)) { continue; }
+            all_interleavings_mode(kind, b, pr, fcap, out, true);
         }
     }
     // (b) random schedules of 3 threads x 2 operations
